@@ -50,23 +50,17 @@ class PestGrammarError(Exception):
         return None
 
     def _error_context(self, text: str, index: int) -> tuple[int, int, str, str, str]:
-        lines = text.splitlines(keepends=True)
-        cumulative_length = 0
-        target_line_index = -1
+        # The end-of-input token has no position of its own.
+        if index < 0 or index > len(text):
+            index = len(text)
 
-        for i, line in enumerate(lines):
-            cumulative_length += len(line)
-            if index < cumulative_length:
-                target_line_index = i
-                break
-
-        if target_line_index == -1:
-            raise ValueError("index is out of bounds for the given string")
+        lines = text.split("\n")
+        target_line_index = text.count("\n", 0, index)
 
         # Line number (1-based)
         line_number = target_line_index + 1
         # Column number within the line
-        column_number = index - (cumulative_length - len(lines[target_line_index]))
+        column_number = index - (text.rfind("\n", 0, index) + 1)
 
         previous_line = (
             lines[target_line_index - 1].rstrip() if target_line_index > 0 else ""
